@@ -315,6 +315,14 @@ def check_context(case):
         out.append(fail('agree.tostring', OBLIGATIONS['agree.tostring'], d.tostring(), c.tostring(), triple=t))
     if c.crc32() != d.crc32():
         out.append(fail('agree.crc32', OBLIGATIONS['agree.crc32'], d.crc32(), c.crc32(), triple=t))
+    else:
+        # for every encoding, in any order of calls on the same objects (the table text differs between utf-8 and utf-16)
+        repr(c), str(c)
+        for enc in ('utf-16', 'utf-8', 'utf-16'):
+            if c.crc32(enc) != d.crc32(encoding=enc):
+                out.append(fail('agree.crc32', OBLIGATIONS['agree.crc32'] + ' (encoding %s, after earlier calls)' % enc,
+                                d.crc32(encoding=enc), c.crc32(enc), triple=t))
+                break
     for x in (None, 0, 'a', t, list(t), [list(objs), list(props), bools], d, frozenset()):
         res = [c == x, c != x, x == c, x != c, c.__eq__(x) is NotImplemented, c.__ne__(x) is NotImplemented]
         if res != [False, True, False, True, True, True]:
